@@ -234,6 +234,8 @@ class NetSession:
                 node.tx_timeout = int(v)
             elif a == "route_timeout":
                 node.route_timeout = int(v)
+            elif a == "max_message_length":
+                node.max_message_length = int(v)
             elif a == "ret_sys_msg":
                 node.ret_sys_msg = pb(v)
             elif a == "node_id":
